@@ -112,6 +112,7 @@ func VerifC02_run() {
 	vSleepBudget(3)
 	vExpect("HORIZON", "ok")
 	vExpect("TICK-HORIZON", "ok")
+	vExpect("BLOCKED", "fail:C06/C07: the discipline blocks for ever although releases are supplied whenever something is in flight and every input gets closed")
 	vTermWatch(d.output, d.err)
 	vRunSpawned(0) // the goroutine New started: main
 	vRunLeftoverSpawned()
